@@ -16,6 +16,12 @@ EXTRA_FORMS = [("coo", "upper"), ("coo", "sym"), ("bsr", "upper"), ("bsr", "sym"
                ("csr_array", "upper"), ("csr_array", "sym"), ("coo_array", "sym"), ("ndarray_float", "sym"), ("ndarray_bool", "upper"),
                # dense arrays in other memory layouts: Fortran order, a strided view, a read-only array
                ("ndarray_F", "upper"), ("ndarray_F", "sym"), ("ndarray_float_F", "upper"), ("ndarray_strided", "sym"), ("ndarray_readonly", "upper")]
+# every edge stored ONCE, but not necessarily above the diagonal (an edge list written into a matrix: lower
+# triangle only, or each edge in the triangle its endpoints happened to be listed in): still the same undirected graph
+ORIENT_FORMS = [("ndarray", "lower"), ("csr", "lower"), ("list", "mixed"), ("ndarray", "mixed"), ("coo", "mixed"), ("lil", "lower")]
+# sparse matrices that STORE zeros at non-edges explicitly (a stored zero is not an edge)
+ZERO_FORMS = [("csr_zeros", "upper"), ("csr_zeros", "sym"), ("csc_zeros", "sym"), ("coo_zeros", "upper")]
+EXTRA_FORMS = EXTRA_FORMS + ORIENT_FORMS + ZERO_FORMS
 RULE = (
     "sparse atlas graphs on 5-7 vertices (and disconnected unions of them with an extra edge) in rotating container forms against a cover of partners and inside 5-collections; ALL labelled simple graphs on <= 4 vertices, connected or not (75 graphs, every vertex relabelling "
     "included), all ordered pairs; each pair in 10 container/symmetry combinations "
@@ -60,6 +66,30 @@ def to_form(A, form):
     M = np.array(A, dtype=int)
     if s == "sym":
         M = np.maximum(M, M.T)
+    elif s == "lower":
+        M = M.T.copy()
+    elif s == "mixed":
+        U = np.maximum(M, M.T)
+        M = np.zeros_like(U)
+        for i in range(len(U)):
+            for j in range(i + 1, len(U)):
+                if U[i, j]:
+                    if (i + 2 * j) % 3 == 0:
+                        M[j, i] = 1
+                    else:
+                        M[i, j] = 1
+    if c.endswith("_zeros"):
+        # every non-edge position of the stored triangle(s) holds an explicit 0
+        n = len(M)
+        rows, cols, data = [], [], []
+        for i in range(n):
+            for j in range(n):
+                if i != j and (s == "sym" or j > i):
+                    rows.append(i)
+                    cols.append(j)
+                    data.append(int(M[i, j]))
+        Z = sps.coo_matrix((np.array(data, dtype=float), (np.array(rows, dtype=int), np.array(cols, dtype=int))), shape=(n, n))
+        return {"csr_zeros": Z.tocsr, "csc_zeros": Z.tocsc, "coo_zeros": lambda: Z}[c]() if n > 1 else sps.csr_matrix((n, n))
     if c == "list":
         return M.tolist()
     if c == "ndarray":
